@@ -117,6 +117,7 @@ func ruleC06Table(p *Prog, r *Res) {
 	type env struct{ main, sub uint64 }
 	var evalErr string
 	var eval func(e ast.Expr, en env) (uint64, bool, bool) // value, isBool(bool value in value!=0), ok
+	evalDepth := 0
 	eval = func(e ast.Expr, en env) (uint64, bool, bool) {
 		e = ast.Unparen(e)
 		if tv, ok := info.Types[e]; ok && tv.Value != nil {
@@ -132,6 +133,31 @@ func ruleC06Table(p *Prog, r *Res) {
 			}
 		}
 		switch x := e.(type) {
+		case *ast.Ident:
+			// a local with one definition (`mainFeatures := ti.features.MainFeatures`, a named boolean): its definition
+			if o := info.Uses[x]; o != nil && evalDepth < 8 {
+				var defs []ast.Expr
+				ast.Inspect(f.Body(), func(n ast.Node) bool {
+					if as, ok := n.(*ast.AssignStmt); ok {
+						for i, l := range as.Lhs {
+							if identObj(info, l) == o {
+								if len(as.Lhs) == len(as.Rhs) {
+									defs = append(defs, as.Rhs[i])
+								} else {
+									defs = append(defs, nil)
+								}
+							}
+						}
+					}
+					return true
+				})
+				if len(defs) == 1 && defs[0] != nil {
+					evalDepth++
+					v, b, ok := eval(defs[0], en)
+					evalDepth--
+					return v, b, ok
+				}
+			}
 		case *ast.SelectorExpr:
 			switch info.Uses[x.Sel] {
 			case types.Object(mainF):
